@@ -87,6 +87,12 @@ type WAL struct {
 	// are in flight (they don't take writeMu). Get and Set hold it shared, Close
 	// takes it exclusively around closing metaDB.
 	stableMu sync.RWMutex
+
+	// writeErr is set (under writeMu) if a metadata commit failed in a way that
+	// leaves us unable to tell whether the persisted state matches the in-memory
+	// one. All further writes are refused with it until the WAL is re-opened
+	// since acknowledging them could lose them on the next recovery.
+	writeErr error
 }
 
 type walOpt func(*WAL)
@@ -296,13 +302,13 @@ func (w *WAL) mutateStateLocked(tx stateTxn) error {
 	// Commit updates to meta
 	vhook("mutate.beforeCommit", w)
 	if err := w.metaDB.CommitState(newS.Persistent()); err != nil {
-		return err
+		return w.abortCommitLocked(s, &newS, err)
 	}
 	vhook("mutate.afterCommit", w)
 
 	if postCommit != nil {
 		if err := postCommit(); err != nil {
-			return err
+			return w.abortCommitLocked(s, &newS, err)
 		}
 	}
 
@@ -311,6 +317,29 @@ func (w *WAL) mutateStateLocked(tx stateTxn) error {
 	vhook("mutate.afterStore", w)
 	s.finalizer.Store(fn)
 	return nil
+}
+
+// abortCommitLocked is called when a state transaction fails at or after the
+// point where its new state may have reached metaDB: CommitState returned an
+// error (which doesn't tell us that nothing was persisted) or the postCommit
+// step failed after a successful commit. The in-memory state is still the old
+// one, so put the old segment list back in metaDB too. If we just carried on
+// with metaDB describing a different set of segments (e.g. a new tail) than the
+// ones we are appending to, entries acknowledged from now on would be dropped
+// by the next recovery. We keep the segment IDs the failed transaction
+// allocated burned since files with those IDs may already exist.
+func (w *WAL) abortCommitLocked(old, failed *state, cause error) error {
+	rollback := old.clone()
+	rollback.nextSegmentID = failed.nextSegmentID
+	if err := w.metaDB.CommitState(rollback.Persistent()); err != nil {
+		w.writeErr = fmt.Errorf("WAL metadata may not match the in-memory state after a failed commit,"+
+			" refusing writes until it is re-opened: %w (restoring the previous metadata failed: %s)", cause, err)
+		return w.writeErr
+	}
+	// Nothing about the set of segments changes so there is nothing to finalize
+	// on the old state, we just need later transactions to see the new next ID.
+	w.s.Store(&rollback)
+	return cause
 }
 
 // acquireState should be used by all readers to fetch the current state. The
@@ -434,6 +463,9 @@ func (w *WAL) StoreLogs(logs []*raft.Log) error {
 	if err := w.checkClosed(); err != nil {
 		return err
 	}
+	if w.writeErr != nil {
+		return w.writeErr
+	}
 
 	s, release := w.acquireState()
 	defer release()
@@ -549,6 +581,9 @@ func (w *WAL) DeleteRange(min uint64, max uint64) error {
 	// if we are not closed yet the state can't be torn down until we are done.
 	if err := w.checkClosed(); err != nil {
 		return err
+	}
+	if w.writeErr != nil {
+		return w.writeErr
 	}
 
 	s, release := w.acquireState()
